@@ -18,7 +18,8 @@ struct Label
 
 struct MDecl
 {
-    enum Kind { VAR, FUN, TYPEDEF } kind{VAR};
+    enum Kind { VAR, FUN, TYPEDEF, OTHER } kind{VAR};
+    int dims{0};  // VAR: number of array dimensions
     std::string text;  // one complete declaration statement (may span lines)
     std::string name;
     std::vector<int> tags;
@@ -62,6 +63,7 @@ struct MEdge
 
 struct MTempl
 {
+    bool dynamic{false};  // declared "dynamic Name(params);" in the global declarations; defined by this <template>
     std::string name;
     std::vector<MParam> params;
     std::vector<MDecl> decls;
@@ -127,6 +129,7 @@ struct GenCfg
     bool shadowing{true};      // reuse binder names of globals
     bool multiline{true};      // labels / declarations spanning several lines, comments, continuations
     bool anonymous_locs{true};
+    bool dynamic_templates{false};  // one template is a dynamic template (declared in the globals, defined in between the others)
     bool xta_compatible{false};  // restrict to the common subset of both formats (C05)
     int depth{2};                // expression nesting depth
 };
